@@ -151,6 +151,7 @@ theorem C13_max_monotone (ops : List Op) (op : Op) (hc : op ≠ .clear) (hd : op
   cases op with
   | clear => exact absurd rfl hc
   | deleteAll => exact absurd rfl hd
+  | lookup i => simp [step, lookup]
   | newInst h id name =>
     simp only [step, newInst]
     cases s.heap h <;> simp
@@ -336,9 +337,22 @@ theorem C13_buf_unnulled_delete_witness (a : Arr) (i p : Nat) (hi : i < a.count)
     (dropAll false a).count = 0 ∧ slotAt (dropAll false a) i = some p :=
   dropAll_false_dangling a i p hi hp
 
+/-- `GetApplication_instance( i )` for ANY index after any history: the `i`-th surviving instance when `i` is below the
+count, null otherwise — and the look-up changes nothing but (possibly) the capacity of the block. -/
+theorem C13_lookup_any_index (ops : List Op) (i : Nat) :
+    let s := run init ops
+    (step s (.lookup i)).2 = .found (instAt s i) ∧
+    (count s ≤ i → instAt s i = none) ∧
+    abs (step s (.lookup i)).1 = abs s ∧ (step s (.lookup i)).1.maxFileId = s.maxFileId := by
+  intro s
+  refine ⟨rfl, ?_, rfl, rfl⟩
+  intro hi
+  simp only [instAt, count] at *
+  rw [List.getElem?_eq_none hi]; rfl
+
 open StepModel.GenNodeArray in
 /-- The list model and the buffer model describe one array.  Replaying, on the heap-block model, exactly the calls that
-the operations of ANY history make on `master` (`traceOf`: `Append`/`Remove( ArrayIndex )`/`ClearEntries`/`DeleteEntries`
+the operations of ANY history make on `master` (`traceOf`: `Append`/`Remove( ArrayIndex )`/`ClearEntries`/`DeleteEntries`/`operator[]( index )` of look-ups
 in the order `InstMgr`'s control flow issues them) never leaves the block; afterwards the first `_count` slots are the
 node identities of `s.nodes` in order, `_count` is `InstanceCount()`, the block length is the model's `bufsize`, and every
 slot at or above the count is null — which is what `GetMgrNode( i )` / `GetApplication_instance( i )` read for such `i`. -/
